@@ -239,7 +239,7 @@ func forkCrossing(nc gen.NamedConfig, h uint64) bool {
 }
 
 func TestImportIsDeterministic(t *testing.T) {
-	ev.Check(t, ev.N(100, 2400), func(t *rapid.T) {
+	ev.Check(t, ev.N(140, 2400), func(t *rapid.T) {
 		importIsDeterministic(t, gen.TreeOpts{MaxBranches: ev.Pick(3, 5), MaxDepth: ev.Pick(9, 24), MaxTxs: 4, Uncles: true, MinMain: 3, ReuseTxs: true, Rivals: true}, "")
 	})
 }
@@ -250,9 +250,9 @@ func TestImportIsDeterministic(t *testing.T) {
 // that address (code size, code, storage) follow on every branch: results must
 // not depend on what the node executed before on another branch.
 func TestForkedDeployments(t *testing.T) {
-	ev.Check(t, ev.N(60, 1500), func(t *rapid.T) {
-		importIsDeterministic(t, gen.TreeOpts{MaxBranches: 3, MaxDepth: 4, MaxTxs: 3, MinMain: 2, Senders: 1,
-			Kinds: []string{"create", "create", "codesize", "codesize", "codesize", "touch-created", "touch-created", "store-set", "transfer"}}, "forked-deployments")
+	ev.Check(t, ev.N(100, 1500), func(t *rapid.T) {
+		importIsDeterministic(t, gen.TreeOpts{MaxBranches: 3, MaxDepth: 5, MaxTxs: 3, MinMain: 2, Senders: 1,
+			Kinds: []string{"create", "create", "codesize", "codesize", "codesize", "touch-created", "touch-created", "store-set", "transfer", "blockhash", "blockhash", "blockhash"}}, "forked-deployments")
 	})
 }
 
